@@ -24,6 +24,9 @@ def build_pool():
     pool["pcf2"] = g.PointCollection([[1.0, 2.0, 4.0], [3.0, 0.0, -2.0]])
     pool["pf3"] = g.Point([2.0, 4.0, 6.0, 2.0])
     pool["axf3"] = g.Point(1.0, 2.0, 2.0)  # float, already normalised, not of unit length (rotation axes)
+    pool["lf2"] = g.Line(3.0, 4.0, -10.0)  # float hyperplanes with non-unit normals and non-zero offsets (mirrors, distances)
+    pool["ef3"] = g.Plane(1.0, 2.0, 2.0, -9.0)
+    pool["ff3"] = g.Plane(2.0, 4.0, 4.0, 5.0)  # parallel to ef3
     pool["p2"] = g.Point(1, 2)
     pool["q2"] = g.Point(-3, 0.5)
     pool["r2"] = g.Point(2, -1)
@@ -157,7 +160,7 @@ def operations(pool):
         ops.append(("RegularPolygon(axis=%s)" % k, (lambda k=k: _RP(pool["r3"], 2, 5, axis=pool[k]))))
     for k in ("pf2", "p2"):
         ops.append(("translation(%s)" % k, (lambda k=k: _tr(pool[k]))))
-    for k in ("l2", "m2", "e3", "f3"):
+    for k in ("l2", "m2", "e3", "f3", "lf2", "ef3", "ff3"):
         ops.append(("reflection(%s)" % k, (lambda k=k: _refl(pool[k]))))
     ops.append(("t2**3", lambda: pool["t2"] ** 3))
     ops.append(("t3**-1", lambda: pool["t3"] ** -1))
